@@ -144,8 +144,9 @@ impl ResourceAllocator {
         if coupling.iter().all(|entry| !entry.request.is_forced()) {
             return true;
         }
+        // Objective values of the current and of the empty worker are compared: no tie-breaking terms
         let Some((_, objective_value)) =
-            group_solver(free, &coupling, &static_info.coupling_weights)
+            group_solver(free, &coupling, &static_info.coupling_weights, false)
         else {
             return false;
         };
@@ -157,6 +158,7 @@ impl ResourceAllocator {
                 &static_info.all_resources,
                 &coupling,
                 &static_info.coupling_weights,
+                false,
             )
             .unwrap();
             cost -= 0.1;
@@ -188,6 +190,7 @@ impl ResourceAllocator {
             &self.free_resources,
             &coupling,
             &self.static_info.coupling_weights,
+            true,
         )
         .unwrap();
         for (entry, group_set) in coupling.into_iter().zip(groups) {
@@ -256,6 +259,7 @@ impl ResourceAllocator {
         &self,
         request: &ResourceRequest,
         on_all: bool,
+        tie_breaking: bool,
     ) -> (Vec<u32>, Option<(Vec<Vec<usize>>, f64)>) {
         let coupling: Vec<&ResourceAllocRequest> = request
             .entries()
@@ -276,8 +280,13 @@ impl ResourceAllocator {
         } else {
             &self.free_resources
         };
-        let r = group_solver(free, &coupling, &self.static_info.coupling_weights)
-            .map(|(gs, obj)| (gs.into_iter().map(|g| g.into_vec()).collect(), obj));
+        let r = group_solver(
+            free,
+            &coupling,
+            &self.static_info.coupling_weights,
+            tie_breaking,
+        )
+        .map(|(gs, obj)| (gs.into_iter().map(|g| g.into_vec()).collect(), obj));
         (ids, r)
     }
 }
